@@ -10,7 +10,9 @@ import (
 	"github.com/LiskHQ/lisk-engine/pkg/codec"
 	"github.com/LiskHQ/lisk-engine/pkg/consensus/certificate"
 	"github.com/LiskHQ/lisk-engine/pkg/crypto"
+	"github.com/LiskHQ/lisk-engine/pkg/db"
 	"github.com/LiskHQ/lisk-engine/pkg/trie/rmt"
+	"github.com/LiskHQ/lisk-engine/pkg/trie/smt"
 
 	"verifharness/internal/node"
 )
@@ -290,6 +292,8 @@ func (w *World) shape(fam string, p []int) []shaped {
 		}
 		a.Queries = keys
 		return []shaped{{"args.smt", a}}
+	case "smtq":
+		return w.smtqShape(p)
 	case "rmtrw":
 		idx := []uint64{0, 1, 2, 5, 1 << 32, 1<<64 - 1}[p[0]]
 		ln := []int{0, 1, 2, 3, 40}
@@ -303,6 +307,118 @@ func (w *World) shape(fam string, p []int) []shaped {
 		return []shaped{{"args.rmtrw", &Args{Index: idx, Path: mk(ln[p[1]], 1), Sibs: mk(ln[p[2]], 100), Root: rep(32, 3)}}}
 	}
 	return nil
+}
+
+// smtq: proof-query shapes (duplicates, two queries naming one node, reordered queries) in two geometries.
+type smtGeometry struct {
+	keyLen int
+	keys   [][]byte
+	root   []byte
+	proof  *smt.Proof
+}
+
+var smtGeo = map[int]*smtGeometry{}
+
+func (w *World) smtGeometry(g int) *smtGeometry {
+	if x, ok := smtGeo[g]; ok {
+		return x
+	}
+	if g == 0 {
+		smtGeo[0] = &smtGeometry{smtKeyLen, w.SmtKeys, w.SmtRoot, w.SmtProof}
+		return smtGeo[0]
+	}
+	// 32-byte keys, 2 000 leaves; queried: four present keys, two absent keys, and for two of the present keys the key
+	// that differs from it in its last bit only (absent: proven by the very leaf of its twin - two queries, one node)
+	d, err := db.NewInMemoryDB()
+	if err != nil {
+		panic(err)
+	}
+	keys, vals := [][]byte{}, [][]byte{}
+	for i := 0; i < 2000; i++ {
+		keys = append(keys, crypto.Hash([]byte{byte(i), byte(i >> 8), 'K'}))
+		vals = append(vals, crypto.Hash([]byte{byte(i), byte(i >> 8), 'V'}))
+	}
+	root, err := smt.NewTrie(nil, 32).Update(d, keys, vals)
+	if err != nil {
+		panic(err)
+	}
+	twin := func(k []byte) []byte { c := append([]byte{}, k...); c[31] ^= 1; return c }
+	q := [][]byte{keys[0], keys[777], keys[1500], keys[1999], crypto.Hash([]byte("absent-1")), crypto.Hash([]byte("absent-2")), twin(keys[0]), twin(keys[1500])}
+	proof, err := smt.NewTrie(root, 32).Prove(d, q)
+	if err != nil {
+		panic(err)
+	}
+	if note := honest(func() (bool, error) { return smt.Verify(q, proof.Copy(), root, 32) }); note != "" {
+		w.Notes = append(w.Notes, "the honest 32-byte-key SMT proof does not verify: "+note)
+	}
+	smtGeo[1] = &smtGeometry{32, q, root, proof}
+	return smtGeo[1]
+}
+
+func (w *World) smtqShape(p []int) []shaped {
+	g := w.smtGeometry(p[0])
+	q, ps, kd := p[1], p[2], p[3]
+	a := &Args{Root: g.root, KeyLen: g.keyLen}
+	for _, s := range g.proof.SiblingHashes {
+		a.Sibs = append(a.Sibs, s)
+	}
+	keys := [][]byte{}
+	for _, k := range g.keys {
+		keys = append(keys, append([]byte{}, k...))
+	}
+	for _, x := range g.proof.Queries {
+		a.PKeys = append(a.PKeys, append([]byte{}, x.Key...))
+		a.PVals = append(a.PVals, append([]byte{}, x.Value...))
+		a.PBitmaps = append(a.PBitmaps, append([]byte{}, x.Bitmap...))
+	}
+	n := len(a.PKeys)
+	i := []int{0, n - 1, n / 2}[ps]
+	dup := func(bm, val []byte) {
+		a.PKeys, a.PVals, a.PBitmaps = append(a.PKeys, append([]byte{}, a.PKeys[i]...)), append(a.PVals, val), append(a.PBitmaps, bm)
+		keys = append(keys, append([]byte{}, keys[i]...))
+	}
+	cp := func(b []byte) []byte { return append([]byte{}, b...) }
+	switch q {
+	case 1:
+		dup(cp(a.PBitmaps[i]), cp(a.PVals[i]))
+	case 2:
+		bm := cp(a.PBitmaps[i])
+		if len(bm) == 0 {
+			bm = []byte{0x80}
+		} else {
+			bm[len(bm)-1] ^= 1
+		}
+		dup(bm, cp(a.PVals[i]))
+	case 3:
+		dup(cp(a.PBitmaps[i]), crypto.Hash(a.PVals[i]))
+	case 4:
+		// a second query key next to key i (last bit flipped) whose proof query is a copy of query i: both name the node of i
+		tw := cp(keys[i])
+		tw[len(tw)-1] ^= 1
+		keys = append(keys, tw)
+		a.PKeys, a.PVals, a.PBitmaps = append(a.PKeys, cp(a.PKeys[i])), append(a.PVals, cp(a.PVals[i])), append(a.PBitmaps, cp(a.PBitmaps[i]))
+	case 5:
+		keys = append(keys, cp(keys[i]))
+	case 6:
+		for j := range a.PKeys {
+			a.PKeys[j], a.PVals[j], a.PBitmaps[j], keys[j] = cp(a.PKeys[i]), cp(a.PVals[i]), cp(a.PBitmaps[i]), cp(keys[i])
+		}
+	case 7:
+		for l, r := 0, n-1; l < r; l, r = l+1, r-1 {
+			a.PKeys[l], a.PKeys[r] = a.PKeys[r], a.PKeys[l]
+			a.PVals[l], a.PVals[r] = a.PVals[r], a.PVals[l]
+			a.PBitmaps[l], a.PBitmaps[r] = a.PBitmaps[r], a.PBitmaps[l]
+			keys[l], keys[r] = keys[r], keys[l]
+		}
+	}
+	if kd == 1 {
+		keys = [][]byte{}
+		for _, k := range a.PKeys {
+			keys = append(keys, cp(k))
+		}
+	}
+	a.Queries = keys
+	return []shaped{{"args.smt", a}}
 }
 
 // ---------------------------------------------------------------------------------------- odd blocks
